@@ -19,6 +19,21 @@ func app(op string, args ...string) string {
 	if len(args) == 0 {
 		return op
 	}
+	if len(args) == 1 && strings.HasPrefix(args[0], "(mkSlice ") {
+		// selector applied to a literal slice of atoms: (llen (mkSlice r o l c)) = l
+		if f := strings.Fields(strings.TrimSuffix(args[0][len("(mkSlice "):], ")")); len(f) == 4 && !strings.ContainsAny(args[0][1:len(args[0])-1], "()") {
+			switch op {
+			case "lref":
+				return f[0]
+			case "loff":
+				return f[1]
+			case "llen":
+				return f[2]
+			case "lcap":
+				return f[3]
+			}
+		}
+	}
 	return "(" + op + " " + strings.Join(args, " ") + ")"
 }
 
@@ -172,6 +187,7 @@ const prelude = `(set-option :produce-models true)
 (declare-sort Opaque 0)
 (declare-fun strbyte (Int Int) Int)
 (declare-fun strid (Str) Int)
+(declare-fun rtype (Int) Int)
 (define-fun wrapS64 ((x Int)) Int (- (mod (+ x 9223372036854775808) 18446744073709551616) 9223372036854775808))
 (define-fun wrapU64 ((x Int)) Int (mod x 18446744073709551616))
 (define-fun wrapS32 ((x Int)) Int (- (mod (+ x 2147483648) 4294967296) 2147483648))
